@@ -98,8 +98,10 @@ func BackSlice(v ssa.Value, leaf func(ssa.Value) bool) bool {
 							}
 						}
 					}
+					return false
 				}
-				return false
+				// a load through a field or element address: what the address is computed from
+				return walk(x.X, fr, depth+1)
 			}
 			return walk(x.X, fr, depth+1)
 		case *ssa.Slice:
